@@ -1062,11 +1062,20 @@ Polygon ellipse(const Vec2 center, double radius_x, double radius_y, double inne
     const double full_angle =
         (final_angle == initial_angle) ? 2 * M_PI : fabs(final_angle - initial_angle);
     if (inner_radius_x > 0 && inner_radius_y > 0) {
+        // Slices are sampled uniformly in the parametric (elliptical) angle: size them from that span
+        double span1 = full_angle;
+        double span2 = full_angle;
+        if (full_angle != 2 * M_PI) {
+            span1 = fabs(elliptical_angle_transform(final_angle, radius_x, radius_y) -
+                         elliptical_angle_transform(initial_angle, radius_x, radius_y));
+            span2 = fabs(elliptical_angle_transform(final_angle, inner_radius_x, inner_radius_y) -
+                         elliptical_angle_transform(initial_angle, inner_radius_x, inner_radius_y));
+        }
         uint64_t num_points1 =
-            1 + arc_num_points(full_angle, radius_x > radius_y ? radius_x : radius_y, tolerance);
+            1 + arc_num_points(span1, radius_x > radius_y ? radius_x : radius_y, tolerance);
         if (num_points1 < GDSTK_MIN_POINTS) num_points1 = GDSTK_MIN_POINTS;
         uint64_t num_points2 =
-            1 + arc_num_points(full_angle,
+            1 + arc_num_points(span2,
                                inner_radius_x > inner_radius_y ? inner_radius_x : inner_radius_y,
                                tolerance);
         if (num_points2 < GDSTK_MIN_POINTS) num_points2 = GDSTK_MIN_POINTS;
@@ -1105,8 +1114,13 @@ Polygon ellipse(const Vec2 center, double radius_x, double radius_y, double inne
             }
         }
     } else {
+        double span = full_angle;
+        if (full_angle != 2 * M_PI) {
+            span = fabs(elliptical_angle_transform(final_angle, radius_x, radius_y) -
+                        elliptical_angle_transform(initial_angle, radius_x, radius_y));
+        }
         uint64_t num_points =
-            1 + arc_num_points(full_angle, radius_x > radius_y ? radius_x : radius_y, tolerance);
+            1 + arc_num_points(span, radius_x > radius_y ? radius_x : radius_y, tolerance);
         if (num_points < GDSTK_MIN_POINTS) num_points = GDSTK_MIN_POINTS;
         if (full_angle == 2 * M_PI) {
             // Full ellipse
